@@ -50,7 +50,7 @@ LATTICE = dict(
 # max kf*|major-minor|*t on the thorough lattice is 11*(11-1/11)*3 = 360 < 709: no exp() overflow in doubles anywhere on the lattice
 # the (slow) "sympy backend called with rational numbers" spelling is enumerated on this sub-lattice, in both tiers
 SN_LATTICE = dict(K=_F("1/3", 1, 5), V=_F("1/3", 1, 5), P=_F(0, "1/2"), N=_F(1, 2), S=_F(0, "1/2"), T=_F(0, "1/7", 3))
-NUM_SPELLINGS = ("default", '"numpy"', "numpy", '"math"', "math", "numpy[array t]", "default[array t]", "numpy[array params]x2", "sympy[numbers]")
+NUM_SPELLINGS = ("default", '"numpy"', "numpy", '"math"', "math", "math[positional]", "numpy[array t]", "default[array t]", "numpy[array params]x2", "sympy[numbers]")
 DIMER_SPELLINGS = ("float", "numpy[array t]", "sympy[numbers]")
 
 
@@ -126,6 +126,11 @@ def _call(name, t, p, spelling_kw):
     if "backend" in spelling_kw:
         kw["backend"] = spelling_kw["backend"]
     args = [p[q] for q in m["params"] if q != "n"]
+    if spelling_kw.get("positional"):
+        # every argument in its documented position, the backend last (as the example notebooks call these functions)
+        if name == "binary_irrev_cstr":
+            args.append(p["n"])
+        return f(t, *(args + [kw["backend"]]))
     if name == "binary_irrev_cstr" and not (spelling_kw.get("omit_defaults") and p["n"] == 1):
         kw["n"] = p["n"]
     return f(t, *args, **kw)
@@ -218,6 +223,7 @@ def _num_spelling_kw(sp_name):
         "numpy": dict(backend=numpy),
         '"math"': dict(backend="math"),
         "math": dict(backend=math),
+        "math[positional]": dict(backend=math, positional=True),
         "numpy[array t]": dict(backend=numpy),
         "default[array t]": dict(omit_defaults=True),
         "numpy[array params]x2": dict(backend=numpy),
